@@ -234,7 +234,25 @@ func (c *vsCase) classifyPanic(k int) string {
 
 // judge applies clauses (1) and (2) to one packet
 func (c *vsCase) judge(k int, what string) string {
-	return c.judgeResult(k, c.validate(k), what)
+	if f := c.judgeResult(k, c.validate(k), what); f != "" {
+		return f
+	}
+	return c.judgeAll(what)
+}
+
+// judgeAll: ValidateAllSignatures reports valid only if every input is genuinely valid
+func (c *vsCase) judgeAll(what string) string {
+	switch c.validateAll() {
+	case "panic":
+		return fail("panic", "validate-all/"+what)
+	case "true":
+		for j := range c.ins {
+			if ok, site, detail := c.specValid(j); !ok {
+				return fail(site, detail+"/validate-all/input-"+itoa(j)+"-of-"+itoa(len(c.ins))+"/"+what)
+			}
+		}
+	}
+	return ""
 }
 
 // judgeHistory: the packet object of `from` is validated first, then its fields are replaced
@@ -353,10 +371,11 @@ func checkC10Vs(t *Toks) string {
 			return ""
 		}
 		n++
-		note(d.judge(k, what))
-		// the same corruption applied in place to an object that was validated before
-		// (skipped for the two bulk classes, which do not touch transaction fields)
+		note(d.judgeResult(k, d.validate(k), what))
+		// ValidateAllSignatures on the corrupted packet, and the same corruption applied in place
+		// to an object that was validated before (both skipped for the two bulk classes)
 		if !strings.HasPrefix(what, "sig-bit-flip") && !strings.Contains(what, "+resigned") {
+			note(d.judgeAll(what))
 			note(d.judgeHistory(c, k, what))
 		}
 		return ""
@@ -439,6 +458,30 @@ func checkC10Vs(t *Toks) string {
 			return ok
 		}); f != "" {
 			return f
+		}
+		// the stated key re-encoded (same point: uncompressed, hybrid, or compressed), signature untouched
+		for _, form := range []int{4, 6, 2} {
+			form := form
+			if f := try("key-reencoded", func(d *vsCase) bool {
+				sg := d.ins[k].sigs[j]
+				pk, err := btcec.ParsePubKey(sg.pub)
+				if err != nil {
+					return false
+				}
+				var enc []byte
+				if form == 2 {
+					enc = pk.SerializeCompressed()
+				} else {
+					enc = reencodeKey(pk, form)
+				}
+				if bytes.Equal(enc, sg.pub) {
+					return false
+				}
+				sg.pub = enc
+				return true
+			}); f != "" {
+				return f
+			}
 		}
 		if f := try("key-bit-flip", func(d *vsCase) bool {
 			d.ins[k].sigs[j].pub = flipBit(d.ins[k].sigs[j].pub, r)
